@@ -19,7 +19,7 @@ from xparse import walk, norm
 import vexpr
 
 FEATURES = ['std', 'libm', 'vec8', 'vec16', 'vec32', 'vec64', 'rgb', 'rgba', 'uv', 'uvw']
-TRIALS = 3000
+TRIALS = 4000
 PRIMS = {'f64', 'f32', 'u8', 'u16', 'u32', 'u64', 'usize', 'i8', 'i16', 'i32', 'i64', 'isize', 'bool'}
 
 
@@ -229,11 +229,12 @@ PRELUDE = r'''
 // mode 0: small dyadic values in [-3, 3]; mode 1: mostly 0 / 1 / -1 (reaches special-case branches and antecedents such as
 // "the last row is (0,0,0,1)"); mode 2: like mode 0, with every 4x4 matrix made affine
 // mode 3: every value repeats (possibly negated) one of the last values with probability 1/2 (equal end points, parallel / opposite vectors, symmetric matrices)
-pub struct Rng(pub u64, pub u8, pub [f64; 4]);
+// mode 4: mode 0 with every value scaled by 1e-4 or 1e-9 (reaches the epsilon-threshold branches: nearly degenerate segments, short axes)
+pub struct Rng(pub u64, pub u8, pub [f64; 4], pub f64);
 impl Rng { pub fn next(&mut self) -> u64 { self.0 = self.0.wrapping_mul(6364136223846793005).wrapping_add(1442695040888963407); (self.0 >> 33) } }
 pub trait Gen: Sized { fn gen(r: &mut Rng) -> Self; fn konst(_v: i32) -> Self { unimplemented!() } }
 fn gen_f(r: &mut Rng) -> f64 {
-    let v = gen_f0(r);
+    let v = gen_f0(r) * r.3;
     let k = (r.next() % 4) as usize;
     if r.1 == 3 && r.next() % 2 == 0 { let w = r.2[k]; return if r.next() % 4 == 0 { -w } else { w }; }
     r.2[k] = v;
@@ -272,7 +273,7 @@ def render_body(exp, specs, layouts, paths=None):
         lines = ['pub mod f%d {' % k] + ['    ' + x for x in uses]
         lines.append('    pub fn run(n: u32) -> Vec<(String, String, String, String)> {')
         lines.append('        let mut out = Vec::new();')
-        lines.append('        for t in 0..n { let mut r = Rng(0x9E3779B97F4A7C15u64 ^ (t as u64 + 1).wrapping_mul(0xD1B54A32D192ED03), (t % 4) as u8, [0.0, 1.0, -1.0, 0.5]);')
+        lines.append('        for t in 0..n { let mut r = Rng(0x9E3779B97F4A7C15u64 ^ (t as u64 + 1).wrapping_mul(0xD1B54A32D192ED03), (t % 5) as u8, [0.0, 1.0, -1.0, 0.5], if t % 5 == 4 { if (t / 5) % 2 == 0 { 1e-4 } else { 1e-9 } } else { 1.0 });')
         names, ins, outs = [], [], []
         vn = {}
         if sp['recv']:
@@ -547,6 +548,6 @@ def attempt(prop, violations, anchors, exp, repo, workdir, timeout=420):
                               indistinguishable=bool(len(rws) == TRIALS and no_panic_gap),   # equal to HEAD (which satisfies the contract) on every input
                               trials=len(rws), trials_with_requires_true=n_req, clauses_evaluated=evaluated, panic_on_one_side_only=not no_panic_gap,
                               clause_evaluation_dropped=sp.get('eval_dropped'),
-                              reason='%d pseudo-random inputs (generic, special-value, affine and repeated-value modes): no input refutes a clause, '
+                              reason='%d pseudo-random inputs (generic, special-value, affine, repeated-value and tiny-scale modes): no input refutes a clause, '
                                      'no difference from HEAD' % TRIALS))
     return notes
